@@ -4,6 +4,7 @@ import time
 from hypothesis import strategies as st
 
 from harness import common, gen, monitors
+from harness.common import viol
 from harness.programs import run_program
 
 PID = 'C10'
@@ -16,7 +17,9 @@ RULE = ('Hypothesis-generated SimNet programs with 1-12 interactions of all mode
         'both endpoints is reduced the way the suite does (_maximum_stream_id 0xF / 0x3F) so ids wrap and are reused '
         'within a run. Oracle at quiescence: for every interaction that has terminated at the API neither endpoint\'s '
         'stream table contains its id and neither reassembly cache holds a partial frame; interactions that reuse a '
-        'wrapped id satisfy the C01 delivery oracle. Non-trivial = an abnormal ending (error or cancel) of a channel '
+        'wrapped id satisfy the C01 delivery oracle; and when every interaction has terminated, a structural summary of '
+        'each endpoint object (all instance attributes) equals that of an endpoint that has served nothing, except the '
+        'stream id cursor. Non-trivial = an abnormal ending (error or cancel) of a channel '
         'while its other direction was still open, or a reused stream id; distinct = program hash. Plus (raw peer, '
         'exhaustive to a depth bound): a harness-scripted peer opens payload fragment trains (PAYLOAD with FOLLOWS) for '
         'a request-response / stream / channel of the real endpoint in either role and the interaction ends while a '
@@ -93,11 +96,51 @@ def programs(draw):
 
 
 info = {}
+_fresh = {}
+
+
+def fresh_state(cfg):
+    """What a connected endpoint pair with this configuration looks like before it has served anything."""
+    key = common.jdump(cfg)
+    if key not in _fresh:
+        if len(_fresh) > 64:
+            _fresh.clear()
+        _fresh[key] = run_program({'cfg': cfg, 'inter': [], 'ops': [['tick', 3], ['settle']], 'heal': False}).final
+    return _fresh[key]
+
+
+def state_diff(a, b, path, acc):
+    if isinstance(a, dict) and isinstance(b, dict):
+        for k in sorted(set(a) | set(b)):
+            state_diff(a.get(k, '<missing>'), b.get(k, '<missing>'), path + '.' + k, acc)
+    elif a != b:
+        acc.append((path, a, b))
+
+
+def mon_like_new(tr, program):
+    """Every interaction has terminated and the run is quiescent: each endpoint's instance state (every attribute:
+    scalars by value, containers and queues by size, tasks / futures by state, stream table, lease objects and reassembly
+    cache one level down) equals that of an endpoint that has served nothing - except the stream id cursor."""
+    out = []
+    if not tr.quiet or tr.faulted or not all(monitors.api_terminated(tr, u) for u in tr.scn.started):
+        return out
+    fresh = fresh_state(program['cfg'])
+    for side in ('c', 's'):
+        if side not in tr.final or 'state' not in tr.final[side] or side not in fresh:
+            continue
+        acc = []
+        state_diff(fresh[side]['state'], tr.final[side]['state'], '', acc)
+        acc = [d for d in acc if d[0] != '._stream_control._current_stream_id']
+        if acc:
+            out.append(viol('state_retained_after_all_interactions_ended', '%s:retained:%s' % (PID, acc[0][0].lstrip('.')), side=side,
+                            differences=[[p_, repr(a)[:50], repr(b)[:50]] for p_, a, b in acc[:6]]))
+    return out
 
 
 def prop(program):
     tr = run_program(program)
     vs = monitors.mon_no_state(tr, PID)
+    vs += mon_like_new(tr, program)
     # interactions on reused ids must still be delivered correctly (only undisturbed ones are judged by mon_delivery)
     disturbed = set(u for u in tr.scn.started if monitors.tr_stream_interrupted(tr, u))
     sids = {}
